@@ -69,6 +69,19 @@ fn programs(quick: bool) -> Vec<(Program, bool)> {
         p.frozen = vec![Role::Worker];
         v.push((p, false));
     }
+    // the same on a key that readers already cannot see (expired, not yet swept): the delete must still take, or a
+    // TTL-only upsert that re-arms the expiry serves the deleted value through every read variant
+    for (name, op) in [
+        ("ttl-only", Op::Upsert { k: 1, value: false, w: None, ttl_ms: Some(5000), remove_ttl: false }),
+        ("remove-ttl+weight", Op::Upsert { k: 1, value: false, w: Some(30), ttl_ms: None, remove_ttl: true }),
+    ] {
+        let mut p = mk(format!("expired-unswept: delete(k);upsert(k,{});read_all(k) [worker stopped]", name), 100, vec![put_ttl(1, 30, 1000), adv(3000)], vec![vec![del(1), op.clone(), Op::ReadAll { keys: vec![1] }]]);
+        p.frozen = vec![Role::Worker];
+        v.push((p, false));
+        let mut p = mk(format!("expired-unswept: delete(k);get(k)||upsert(k,{});get_ref(k)", name), 100, vec![put_ttl(1, 30, 1000), adv(3000)], vec![vec![del(1), get(1)], vec![op, rd(1, ReadVariant::GetRef)]]);
+        p.tolerate_value_missing = true;
+        v.push((p, false));
+    }
     // sequential: an upsert carrying a value supersedes the old value even when the key had expired but was not swept
     for (name, op) in [
         ("value+ttl", Op::Upsert { k: 1, value: true, w: None, ttl_ms: Some(3000), remove_ttl: false }),
